@@ -1,13 +1,27 @@
 (* C15 - Reward accumulator pays each position exactly growth times shares held.
    Property theorems only; each is closed by a lemma from C15/Proofs*.v.
-   [hist tr st] (C15/Spec.v): st is the store of one accumulator after the calls of tr (newest first), each made
-   through an AccumulatorObject that holds the current accumulator value (and, for AddToAccumulator and
-   DeletePosition, the current total shares - everything else in the object may be stale), on arguments in the
-   property's domain [dom] (well-formed coin lists, non-negative growth, a name is created only while it does
-   not exist).  A panicking call aborts the transaction and leaves the store as it was. *)
+
+   Vocabulary (C15/Spec.v).  A trace [tr] is the list of exported calls made on one accumulator, newest first,
+   each with its result; only calls that returned successfully count.  [hist tr st]: st is the accumulator's
+   store (content + position records) after tr, where every call was made
+     - through an AccumulatorObject that holds the current accumulator value (and, for AddToAccumulator and
+       DeletePosition, the current total shares; anything else in the object may be stale) - [recv_ok];
+     - on arguments in the property's quantifier [dom]: coin lists sorted by denomination, non-negative growth,
+       a name is created only while it does not exist and with a non-negative share amount.
+   A panicking call (LegacyDec overflow beyond 2^256, DecCoins.Sub going negative in the interval API) aborts
+   the transaction and leaves the store as it was; all statements below are about calls that return.
+   Ghost quantities, defined on the trace alone: [shares tr n], [live tr n], [growth tr d],
+   [intervals tr n d] = the maximal intervals since n's last reset (creation / claim) during which n held a
+   constant share count, as pairs (growth credited in the interval, shares held), the open interval first;
+   [claimable tr n d] = sum over these intervals of MulDec(growth, shares) + explicitly added unclaimed rewards;
+   [claimable_exact36] = the same with exact products (scaled by 10^18).  For the plain (non-interval) API
+   [pl_intervals] / [pl_claimable] take as "growth credited" the sum of the AddToAccumulator increments made
+   since the interval began ([since]); for the interval API it is (accumulator value - caller-supplied
+   reference point). *)
 From Coq Require Import ZArith List Bool Lia.
 Import ListNotations.
-From Osmo Require Import Base.DecModel C15.Model C15.Spec C15.ProofsMap C15.ProofsInv1.
+From Osmo Require Import Base.DecModel C15.Model C15.Spec C15.ProofsMap C15.ProofsStep C15.ProofsInv1
+  C15.ProofsCoins C15.ProofsInv2 C15.ProofsSpec C15.ProofsMain.
 Open Scope Z_scope.
 
 (* the recorded total shares equal the sum of the position shares, after every history *)
@@ -25,3 +39,165 @@ Theorem C15_positions_mirror_history : forall tr st, hist tr st -> forall n,
   end.
 Proof. intros tr st H; destruct (hist_inv1 tr st H) as [c [_ [_ [_ Hp]]]]; exact Hp. Qed.
 Print Assumptions C15_positions_mirror_history.
+
+(* ClaimRewards returns, per denomination, the integer part of [claimable] as coins and its fractional part as
+   dust (truncation happens here and only here) *)
+Theorem C15_claim_eq_spec : forall tr st rv n tc du, hist tr st -> recv_ok st rv (OClaim n) ->
+  o_res (step st rv (OClaim n)) = Ok (RClaim tc du) ->
+  forall d, 0 <= claimable tr n d /\ amt d tc = Z.quot (claimable tr n d) P18 /\ amt d du = frac18 (claimable tr n d).
+Proof. intros tr st rv n tc du H1 H2 H3; exact (proj2 (proj2 (claim_eq_spec tr st rv n tc du H1 H2 H3))). Qed.
+Print Assumptions C15_claim_eq_spec.
+
+(* DeletePosition returns the whole of [claimable] as decimal coins *)
+Theorem C15_delete_eq_spec : forall tr st rv n ret, hist tr st -> recv_ok st rv (ODelete n) ->
+  o_res (step st rv (ODelete n)) = Ok (RDelete ret) ->
+  forall d, amt d ret = claimable tr n d /\ 0 <= claimable tr n d.
+Proof. intros tr st rv n ret H1 H2 H3; exact (proj2 (delete_eq_spec tr st rv n ret H1 H2 H3)). Qed.
+Print Assumptions C15_delete_eq_spec.
+
+(* plain API: what is paid is the sum, over the intervals of constant shares, of
+   MulDec(growth that occurred in the interval, shares held) ... *)
+Theorem C15_claim_eq_growth_times_shares : forall tr st rv n tc du, hist tr st -> plain tr ->
+  recv_ok st rv (OClaim n) -> o_res (step st rv (OClaim n)) = Ok (RClaim tc du) ->
+  forall d, amt d tc = Z.quot (pl_claimable tr n d) P18 /\ amt d du = frac18 (pl_claimable tr n d).
+Proof.
+  intros tr st rv n tc du H1 Hp H2 H3 d. rewrite (pl_claimable_eq tr Hp n d).
+  exact (proj2 (C15_claim_eq_spec tr st rv n tc du H1 H2 H3 d)).
+Qed.
+Print Assumptions C15_claim_eq_growth_times_shares.
+
+(* ... which is within half a unit of the 18th decimal per interval of the exact rational sum of
+   growth * shares (both sides scaled by 10^36): the precise sense of "truncation only at claim time" given that
+   DecCoins.MulDec rounds half-even at 18 decimals ... *)
+Theorem C15_spec_vs_rational : forall tr n d,
+  Z.abs (P18 * pl_claimable tr n d - pl_claimable_exact36 tr n d) <= HALF * Z.of_nat (length (pl_intervals tr n d)) /\
+  Z.abs (P18 * claimable tr n d - claimable_exact36 tr n d) <= HALF * Z.of_nat (length (intervals tr n d)).
+Proof. intros; split; [apply pl_spec_vs_rational|apply spec_vs_rational]. Qed.
+Print Assumptions C15_spec_vs_rational.
+
+(* ... and exact whenever the products need no rounding (e.g. whole share counts with whole growth) *)
+Theorem C15_muldec_exact_when_representable : forall g s, (g * s) mod P18 = 0 -> P18 * d_mul g s = g * s.
+Proof. exact d_mul_exact. Qed.
+Print Assumptions C15_muldec_exact_when_representable.
+
+(* claiming resets exactly the claimer: the accumulator content and every other record are untouched, the
+   claimer's record is reset (or removed when it holds no shares), nothing is claimable right afterwards, and
+   every other name's claimable amount and shares are what they were *)
+Theorem C15_claim_frames_others : forall tr st rv n x, hist tr st -> recv_ok st rv (OClaim n) ->
+  o_res (step st rv (OClaim n)) = Ok x ->
+  let st' := o_st (step st rv (OClaim n)) in
+  a_content st' = a_content st /\
+  (forall m, m <> n -> p_get m (a_pos st') = p_get m (a_pos st)) /\
+  (exists c, a_content st = Some c /\
+     p_get n (a_pos st') = if shares tr n =? 0 then None else Some (mkR (shares tr n) (c_value c) [])) /\
+  (forall d, claimable ((OClaim n, Ok x) :: tr) n d = 0) /\
+  (forall m d, m <> n -> claimable ((OClaim n, Ok x) :: tr) m d = claimable tr m d /\
+                         shares ((OClaim n, Ok x) :: tr) m = shares tr m).
+Proof.
+  intros tr st rv n x H1 H2 H3. destruct (claim_frames_others tr st rv n x H1 H2 H3) as [A [B C]].
+  repeat split; auto using claimable_after_claim; apply claim_ghost_frames; assumption.
+Qed.
+Print Assumptions C15_claim_frames_others.
+
+(* a deleted position, and a position claimed while holding no shares, disappears; deletion takes its shares out
+   of the total and leaves the value and everybody else alone *)
+Theorem C15_delete_or_zero_claim_removes : forall tr st rv n x, hist tr st ->
+  (recv_ok st rv (ODelete n) -> o_res (step st rv (ODelete n)) = Ok x ->
+     let st' := o_st (step st rv (ODelete n)) in
+     p_get n (a_pos st') = None /\ (forall m, m <> n -> p_get m (a_pos st') = p_get m (a_pos st)) /\
+     exists c c', a_content st = Some c /\ a_content st' = Some c' /\
+                  c_value c' = c_value c /\ c_total c' = c_total c - shares tr n) /\
+  (recv_ok st rv (OClaim n) -> o_res (step st rv (OClaim n)) = Ok x -> shares tr n = 0 ->
+     p_get n (a_pos (o_st (step st rv (OClaim n)))) = None).
+Proof. intros tr st rv n x H; split; [apply delete_removes|apply zero_claim_removes]; assumption. Qed.
+Print Assumptions C15_delete_or_zero_claim_removes.
+
+(* a call that returns an error has no effect; the calls that return an error are exactly the ones the property
+   lists ([invalid]: unknown name, non-positive share change, removing more than held, negative rewards) *)
+Theorem C15_errors_have_no_effect : forall tr st rv o, hist tr st -> dom tr o -> recv_ok st rv o ->
+  (forall e, o_res (step st rv o) = Err e -> o_st (step st rv o) = st) /\
+  ((exists e, o_res (step st rv o) = Err e) <-> invalid tr o).
+Proof.
+  intros tr st rv o H1 H2 H3; split; [intros e; apply errors_have_no_effect with (tr := tr); assumption|].
+  apply step_err_iff; assumption.
+Qed.
+Print Assumptions C15_errors_have_no_effect.
+
+(* several accumulators in one store do not interfere (disjoint key prefixes), and a call made through a freshly
+   fetched AccumulatorObject (GetAccumulator, as every caller in /repo does) is a [hist] step *)
+Theorem C15_accumulators_independent : forall w o a b,
+  match o with WMake a' _ => a' = a | WOp a' _ _ _ => a' = a end -> b <> a ->
+  acc_get b (w_accs (snd (wstep w o))) = acc_get b (w_accs w).
+Proof. exact wstep_frames_other_accumulators. Qed.
+Print Assumptions C15_accumulators_independent.
+Theorem C15_fresh_handle_is_admissible : forall w a h o tr, hist tr (acc_get a (w_accs w)) ->
+  let st := acc_get a (w_accs w) in
+  recv_ok st (fresh_rv st) o /\
+  fst (wstep w (WOp a h true o)) = fst (apply st (fresh_rv st) o) /\
+  acc_get a (w_accs (snd (wstep w (WOp a h true o)))) = snd (apply st (fresh_rv st) o).
+Proof.
+  intros w a h o tr Hh st. split; [eapply fresh_recv_ok; exact Hh|].
+  destruct (hist_inv1 tr _ Hh) as [c [Hc _]]. exact (wstep_fresh_is_apply w a h o c Hc).
+Qed.
+Print Assumptions C15_fresh_handle_is_admissible.
+
+(* the whole property in one statement *)
+Definition C15_full : Prop := forall tr st, hist tr st ->
+  (exists c, a_content st = Some c /\ c_total c = sum_shares (a_pos st)) /\
+  (forall n, match p_get n (a_pos st) with
+             | Some r => live tr n = true /\ r_shares r = shares tr n
+             | None => live tr n = false end) /\
+  (forall n d, Z.abs (P18 * claimable tr n d - claimable_exact36 tr n d) <= HALF * Z.of_nat (length (intervals tr n d))) /\
+  (plain tr -> forall n d, claimable tr n d = pl_claimable tr n d /\ claimable_exact36 tr n d = pl_claimable_exact36 tr n d) /\
+  forall rv o, dom tr o -> recv_ok st rv o ->
+    let r := step st rv o in
+    (forall e, o_res r = Err e -> o_st r = st) /\
+    ((exists e, o_res r = Err e) <-> invalid tr o) /\
+    (forall n tc du, o = OClaim n -> o_res r = Ok (RClaim tc du) ->
+       (forall d, 0 <= claimable tr n d /\ amt d tc = Z.quot (claimable tr n d) P18 /\ amt d du = frac18 (claimable tr n d)) /\
+       a_content (o_st r) = a_content st /\
+       (forall m, m <> n -> p_get m (a_pos (o_st r)) = p_get m (a_pos st)) /\
+       (shares tr n = 0 -> p_get n (a_pos (o_st r)) = None)) /\
+    (forall n ret, o = ODelete n -> o_res r = Ok (RDelete ret) ->
+       (forall d, amt d ret = claimable tr n d) /\ p_get n (a_pos (o_st r)) = None).
+
+Theorem C15_full_holds : C15_full.
+Proof.
+  intros tr st H. split; [exact (C15_total_shares_eq_sum tr st H)|]. split; [exact (C15_positions_mirror_history tr st H)|].
+  split; [intros n d; apply spec_vs_rational|].
+  split; [intros Hp n d; rewrite (pl_claimable_eq tr Hp n d), (pl_exact_eq tr Hp n d); auto|].
+  intros rv o Hd Hrv r. subst r.
+  destruct (C15_errors_have_no_effect tr st rv o H Hd Hrv) as [E1 E2]. split; [exact E1|]. split; [exact E2|]. split.
+  - intros n tc du -> Hres. split; [exact (C15_claim_eq_spec tr st rv n tc du H Hrv Hres)|].
+    destruct (claim_frames_others tr st rv n _ H Hrv Hres) as [A [B _]]. split; [exact A|]. split; [exact B|].
+    intros Hz. exact (zero_claim_removes tr st rv n _ H Hrv Hres Hz).
+  - intros n ret -> Hres. split; [intros d; exact (proj1 (C15_delete_eq_spec tr st rv n ret H Hrv Hres d))|].
+    exact (proj1 (delete_removes tr st rv n _ H Hrv Hres)).
+Qed.
+Print Assumptions C15_full_holds.
+
+(* non-vacuity: two names, two denominations; growth, share increase and decrease, explicitly added rewards, a
+   failing call in between; name 1 then claims.  The history is a [hist], it is plain, the claim succeeds and pays
+   floor(pl_claimable) = 41 and 7 whole coins with dust 5e-18 and 20e-18, and the spec has three intervals for name 1. *)
+Definition nv_ops : list op :=
+  [ ONew 1 (3 * P18); OGrow [(0, 2 * P18 + 1); (2, 5)]; ONew 2 (1 * P18); OAdd 1 (P18 / 2);
+    OGrow [(0, 10 * P18)]; ORemove 1 (10 * P18); ORemove 1 (1 * P18 + 7); OAddUnclaimed 1 [(2, 7 * P18 + 3)];
+    OGrow [(0, 1); (2, 1)] ].
+Definition nv_run := run_fresh nv_ops [] init_store.
+Example C15_nonvacuous :
+  hist (fst nv_run) (snd nv_run) /\ plain (fst nv_run) /\
+  recv_ok (snd nv_run) (fresh_rv (snd nv_run)) (OClaim 1) /\
+  o_res (step (snd nv_run) (fresh_rv (snd nv_run)) (OClaim 1)) =
+    Ok (RClaim [(0, 41); (2, 7)] [(0, 5); (2, 20)]) /\
+  pl_claimable (fst nv_run) 1 0 = 41 * P18 + 5 /\
+  length (pl_intervals (fst nv_run) 1 0) = 3%nat /\
+  invalid (fst nv_run) (ORemove 1 (10 * P18)) /\ ~ invalid (fst nv_run) (OClaim 1).
+Proof.
+  assert (Hh : hist (fst nv_run) (snd nv_run)).
+  { apply run_fresh_hist; [constructor|]. vm_compute. repeat split; try discriminate; auto; repeat constructor; discriminate. }
+  split; [exact Hh|]. split.
+  { vm_compute. repeat constructor. }
+  split; [eapply fresh_recv_ok; exact Hh|].
+  split; [vm_compute; reflexivity|]. split; [vm_compute; reflexivity|]. split; [vm_compute; reflexivity|].
+  split; [right; right; vm_compute; reflexivity|]. vm_compute. discriminate.
+Qed.
